@@ -26,10 +26,15 @@ func sampleOf(c *Case) interface{} {
 // try runs one case under both bookkeeping and the oracle; returns the error.
 func try(test string, c *Case) error {
 	hx.Eval()
-	if nontrivial(c) {
-		hx.NonTrivial(c.Kind, c.Dotu, c.Input)
+	refForget()
+	kind, b, err := c.bytes()
+	if err != nil {
+		return fmt.Errorf("harness: %v", err)
 	}
-	return Run(c)
+	if nontrivial(kind, b, c.Dotu) {
+		hx.NonTrivial(kind, c.Dotu, b)
+	}
+	return run(kind, b, c.Dotu)
 }
 
 func TestReplay(t *testing.T) {
